@@ -188,6 +188,15 @@ func ruleTypeSwitchTotal(c *Ctx, rule string) {
 		name := ts.pkg + "." + funcDeclName(ts.fd)
 		ob := r.Ob(rule, name+": unmatched value becomes an error", c.pos(ts.sw.Pos()))
 		info := c.info("bytecode")
+		// semantic decision first: fold the function with a nil node (a nil interface matches no case)
+		if verdict, detail, ok := c.foldWithNilNode(ts); ok {
+			if verdict {
+				ob.OKnt(detail)
+			} else {
+				ob.Bad(detail)
+			}
+			continue
+		}
 		switch {
 		case ts.hasDef && ts.defPanic, ts.after == "panic":
 			ob.Bad("an unmatched (or nil) " + ts.iface.Obj().Name() + " reaches a panic during Compile")
@@ -330,4 +339,54 @@ func ruleEnumExhaustive(c *Ctx, rule string, pkgs []string, only func(es *enumSw
 		}
 	}
 	r.Floor(rule, "panicking enum switches", n, floor)
+}
+
+// foldWithNilNode partially evaluates a dispatch function of package bytecode with a nil node: the type switch matches no case, and
+// whatever follows must produce an error (a non-nil error result, or currentType == PTERROR for the checker).
+func (c *Ctx) foldWithNilNode(ts *tySwitch) (verdict bool, detail string, ok bool) {
+	fn := c.ssaFuncFor(ts.pkg, ts.fd)
+	infoT := c.NamedType("bytecode", "ProcessTypeInfo")
+	if fn == nil {
+		return false, "", false
+	}
+	var args []PVal
+	for _, p := range fn.Params {
+		t := p.Type()
+		switch {
+		case types.Identical(deref(t), ts.iface) && t != deref(t):
+			args = append(args, PPtr{&PObj{PConst{nil, ts.iface}}, nil})
+		case types.Identical(t, ts.iface):
+			args = append(args, PConst{nil, ts.iface})
+		case infoT != nil && types.Identical(t, infoT):
+			args = append(args, c.mkTypeInfo("PTOK", "", false))
+		default:
+			args = append(args, PSym{p.Name()})
+		}
+	}
+	pe := &PEval{Interpret: c.repoInterp}
+	res := pe.Run(fn, args)
+	if res.Err != "" {
+		return false, "", false
+	}
+	if res.Panic {
+		return false, "a nil (or unmatched) " + ts.iface.Obj().Name() + " makes " + fn.Name() + " panic during Compile", true
+	}
+	n := len(res.Results)
+	if n == 0 {
+		return false, "", false
+	}
+	last := res.Results[n-1]
+	if infoT != nil && n == 1 {
+		if st, isStruct := last.(PStruct); isStruct && types.Identical(st.T, infoT) {
+			got := c.ptName(pfield(last, "currentType"))
+			if got == "PTERROR" {
+				return true, "folded with a nil node: the result has currentType == PTERROR", true
+			}
+			return false, "folded with a nil node: the result has currentType == " + got + ", so an unmatched statement or expression is accepted silently", true
+		}
+	}
+	if k, isConst := last.(PConst); isConst && k.V == nil {
+		return false, "folded with a nil node: the error result is nil, so an unmatched node is accepted silently", true
+	}
+	return true, "folded with a nil node: returns a non-nil error (" + pstring(last) + ")", true
 }
